@@ -429,6 +429,24 @@ def child_main():
                 return real_field_format(self)
             finally:
                 in_field[0] -= 1
+        # the --process-types step wraps the parser: a crash in there is a crash of the parsing pipeline as well
+        outer_events = []
+        real_processtypes = epydoc2stan.processtypes
+
+        def wrap_processtypes(parse):
+            inner = real_processtypes(parse)
+
+            def outer(doc, errs):
+                try:
+                    return inner(doc, errs)
+                except ParseError:
+                    outer_events.append([doc, 'ParseError'])
+                    raise
+                except BaseException as e:  # noqa
+                    outer_events.append([doc, type(e).__name__])
+                    raise
+            return outer
+        epydoc2stan.processtypes = wrap_processtypes
         epydoc2stan.get_to_stan_error = wrap_gtse
         epydoc2stan.Field.format = wrap_field_format
         epydoc2stan.get_parser_by_name = wrap_get_parser
@@ -505,7 +523,8 @@ def child_main():
                 out['pre_text'] = cd['body'][1] if cd['body'][0] == 'pre' else None
                 out['broken_fields'] = len([x for x in cd['fields'] if x == ['broken']])
                 mine = [e for e in events if e[0] == text_of_target(src_ob, case)]
-                out['parser_raised'] = next((e[1] for e in mine if e[1]), None)
+                out['parser_raised'] = next((e[1] for e in mine if e[1]), None) or \
+                    next((e[1] for e in outer_events if e[0] == text_of_target(src_ob, case)), None)
                 out['recovered_errs'] = max([e[2] for e in mine if not e[1]] or [0])
                 out['fatal_left'] = max([e[3] for e in mine if not e[1]] or [0])
                 out['fallback_called'] = bool(fb_calls)
@@ -515,6 +534,7 @@ def child_main():
                 out['parse_errors'] = sorted(n for n in system.parse_errors['docstring'])
                 out['reports_obj'] = len([r for r in reports if r[0] == src_qn and r[2].startswith('bad docstring')])
                 out['reports'] = reports[:6]
+                out['report_texts'] = [r[2][:100] for r in reports if r[0] == src_qn][:40]
                 pd = ob.parsed_docstring
                 out['parsed_kind'] = type(pd).__name__ if pd is not None else None
                 out['stage'] = 'other'
@@ -534,6 +554,7 @@ def child_main():
             epydoc2stan.format_docstring_fallback = real_fb
             epydoc2stan.get_to_stan_error = real_gtse
             epydoc2stan.Field.format = real_field_format
+            epydoc2stan.processtypes = real_processtypes
             for cls, orig_tn in wrapped:
                 cls.to_node = orig_tn
         return out
